@@ -295,7 +295,12 @@ func famCliCore(o *Out, r *RNG, thorough bool) {
 					if st/100 == 2 {
 						msBody = `<?xml version="1.0"?><D:multistatus xmlns:D="DAV:"><D:response><D:href>/x</D:href><D:status>HTTP/1.1 200 OK</D:status></D:response></D:multistatus>`
 						if mb == "broken" {
-							msBody = r.Pick([]string{msBody[:r.Range(1, len(msBody)-2)], "", "not xml", `<D:prop xmlns:D="DAV:"/>`, `<multistatus xmlns="urn:x"/>`})
+							msBody = r.Pick([]string{msBody[:r.Range(1, len(msBody)-2)], "", "not xml", `<D:prop xmlns:D="DAV:"/>`, `<multistatus xmlns="urn:x"/>`,
+								// not well-formed in the ways a lenient parser lets through: an end tag that does not match, an unquoted
+								// attribute value, a bare ampersand, an undeclared entity
+								strings.Replace(msBody, "</D:status>", "</D:propstat>", 1), strings.Replace(msBody, "</D:multistatus>", "</D:multistatuz>", 1),
+								strings.Replace(msBody, `xmlns:D="DAV:"`, `xmlns:D="DAV:" verif=1`, 1), strings.Replace(msBody, "<D:href>/x", "<D:href>/x & y", 1),
+								strings.Replace(msBody, "<D:href>/x", "<D:href>/x&nbsp;y", 1)})
 						}
 					}
 					sc2 := &scriptClient{status: st, ctype: cliCTs[ct], body: msBody}
